@@ -46,7 +46,8 @@ vars == <<g, pending, hist, lastEff>>
 
 Pristine == [mfm |-> FALSE, ofm |-> FALSE, style |-> "att", range |-> <<>>, sections |-> <<>>]
 
-Init == g = Pristine /\ pending = {} /\ hist = <<>> /\ lastEff = <<>>
+NoEff == [valid |-> FALSE, rule |-> "", eff |-> Pristine]
+Init == g = Pristine /\ pending = {} /\ hist = <<>> /\ lastEff = NoEff
 
 Construct(r) ==
     /\ Len(hist) < 2 * MaxOps
@@ -61,7 +62,7 @@ Effective(h) == [mfm |-> h.mfm, ofm |-> h.ofm, style |-> g.style, range |-> g.ra
 
 Match(h) ==
     /\ h \in pending
-    /\ lastEff' = <<h.rule, Effective(h)>>
+    /\ lastEff' = [valid |-> TRUE, rule |-> h.rule, eff |-> Effective(h)]
     /\ pending' = pending \ {h}
     /\ hist' = Append(hist, <<"M", h.rule>>)
     /\ UNCHANGED g
@@ -71,7 +72,7 @@ Spec == Init /\ [][Next]_vars
 
 \* C14: whatever came before, an operation runs under exactly the configuration its own
 \* rule document states -- the one it would run under as the first operation of a fresh process
-C14_OwnConfig == lastEff # <<>> => lastEff[2] = CfgOf(Cfg[lastEff[1]])
+C14_OwnConfig == lastEff.valid => lastEff.eff = CfgOf(Cfg[lastEff.rule])
 \* inductive core: between operations the global configuration is the last constructed rule's
 C14_Inductive == (hist # <<>> /\ hist[Len(hist)][1] = "C") => g = CfgOf(Cfg[hist[Len(hist)][2]])
 =============================================================================
